@@ -718,6 +718,13 @@ std::string Printer::printModel(const ModelPtr &model, bool autoIds)
     XmlDocPtr xmlDoc = std::make_shared<XmlDoc>();
     xmlKeepBlanksDefault(0);
     xmlDoc->parse(repr);
+    // The text could not be read back (and so cannot be pretty-printed): say why rather than silently returning nothing.
+    for (size_t i = 0; i < xmlDoc->xmlErrorCount(); ++i) {
+        auto issue = Issue::IssueImpl::create();
+        issue->mPimpl->setDescription("LibXml2 error: " + xmlDoc->xmlError(i));
+        issue->mPimpl->setReferenceRule(Issue::ReferenceRule::XML);
+        pFunc()->addIssue(issue);
+    }
     return xmlDoc->prettyPrint();
 }
 
